@@ -4,7 +4,8 @@ Graph: per Hz <-> per m (wavelength; reverses the grid) and per Hz <-> per 1/m
 (wavenumber). Every path of 1..4 edges from every node is executed on a
 spectrum given over a grid; the reference moves (grid point, spectrum row)
 pairs along the same path in exact rationals with the Jacobian
-|df/dlambda| = f^2/c resp. |df/dn| = c.
+|df/dlambda| = f^2/c resp. |df/dn| = c. The arrays handed to a converter
+must be unchanged after the call (the spectrum in its old form stays valid).
 """
 import itertools
 from fractions import Fraction
@@ -118,12 +119,18 @@ def check(case):
     src = case["start"]
     for dst in case["path"]:
         name = CONVERTER[src, dst]
+        given = (vals, grid)
+        before = (np.array(vals), np.array(grid))
         try:
             with np.errstate(all="ignore"):
                 vals, grid = getattr(em, name)(vals, grid)
         except Exception as e:
             return [("exception/%s/%s" % (name, type(e).__name__), None,
                      repr(e)[:200], "")], 0
+        for what, now, was in zip(("spectrum", "grid"), given, before):
+            if not np.array_equal(now, was):
+                return [("density/%s-argument-modified" % what, was, now,
+                         name)], 0
         pairs = exact_step(src, dst, pairs, c)
         src = dst
     if np.shape(vals) != shape or np.shape(grid) != (n,):
